@@ -2,6 +2,7 @@ package table
 
 import (
 	"math/rand"
+	"sync/atomic"
 	"time"
 
 	"github.com/named-data/ndnd/fw/core"
@@ -23,7 +24,10 @@ type PitCsTree struct {
 	nPitEntries int
 	pitTokenMap map[uint32]*nameTreePitEntry
 
-	nCsEntries    int
+	// nCsEntries is the number of CS entries as told to other goroutines: management
+	// reads it (CsSize) while the forwarding thread inserts. It is published once an
+	// insertion is complete, i.e. after the eviction down to the capacity.
+	nCsEntries    atomic.Int64
 	csReplacement CsReplacementPolicy
 	csMap         map[uint64]*nameTreeCsEntry // CS entry by index
 	nextCsIndex   uint64                      // index of the next new CS entry
@@ -263,7 +267,7 @@ func (p *PitCsTree) PitSize() int {
 
 // CsSize returns the number of entries in the CS.
 func (p *PitCsTree) CsSize() int {
-	return p.nCsEntries
+	return int(p.nCsEntries.Load())
 }
 
 // IsCsAdmitting returns whether the CS is admitting content.
@@ -426,7 +430,6 @@ func (p *PitCsTree) InsertData(data *spec.Data, wire []byte) {
 		p.csReplacement.AfterRefresh(entry.index, wire, data)
 	} else {
 		// New entry, under an index of its own
-		p.nCsEntries++
 		index := p.nextCsIndex
 		p.nextCsIndex++
 		node.csEntry = &nameTreeCsEntry{
@@ -443,6 +446,10 @@ func (p *PitCsTree) InsertData(data *spec.Data, wire []byte) {
 
 		// Tell replacement strategy to evict entries if needed
 		p.csReplacement.EvictEntries()
+
+		// Only now count the new entry: a reader in another goroutine must not see
+		// the entry that is about to be evicted on top of the capacity
+		p.nCsEntries.Store(int64(len(p.csMap)))
 	}
 }
 
@@ -452,7 +459,7 @@ func (p *PitCsTree) eraseCsDataFromReplacementStrategy(index uint64) {
 	if entry, ok := p.csMap[index]; ok {
 		entry.node.csEntry = nil
 		delete(p.csMap, index)
-		p.nCsEntries--
+		p.nCsEntries.Store(int64(len(p.csMap)))
 		entry.node.pruneIfEmpty()
 	}
 }
